@@ -32,6 +32,9 @@ usage: angles2lean.py --repo /repo --out <AnglesCls.lean>
 """
 import argparse
 import ast
+import os as _os, sys as _sys
+_sys.path.insert(0, _os.path.dirname(_os.path.abspath(__file__)))
+from astnorm import normalise
 import os
 import sys
 
@@ -68,7 +71,7 @@ def strip_doc(body):
 class Tr:
     def __init__(self, path):
         self.path = path
-        self.tree = ast.parse(open(path).read(), filename=path)
+        self.tree = normalise(ast.parse(open(path).read(), filename=path))
         self.methods = {}      # (cls, pyname) -> FunctionDef
         self.kinds = {}        # (cls, pyname) -> result kind
         self.texts = {}        # (cls, pyname) -> lean lines
@@ -231,6 +234,11 @@ class Tr:
                 pre.append(f'let {v} ← GenAng.{cc}.neg {t}')
                 return v, k
             self.err(e, f'unary minus on kind {k}')
+        if isinstance(e, ast.UnaryOp) and isinstance(e.op, ast.Not):
+            t, k = self.expr(e.operand, env, pre, c)
+            if k != 'bool':
+                self.err(e, f'`not` on kind {k}')
+            return f'(!{t})', 'bool'
         if isinstance(e, ast.BinOp):
             a, ka = self.expr(e.left, env, pre, c)
             b, kb = self.expr(e.right, env, pre, c)
@@ -263,6 +271,9 @@ class Tr:
             if e.keywords:
                 self.err(e, 'keyword arguments are outside the modelled subset')
             f = e.func
+            if isinstance(f, ast.Attribute) and isinstance(f.value, ast.Name) and f.value.id == 'math' and 'math' not in env \
+                    and f.attr in ('radians',):
+                f = ast.Name(id=f.attr, ctx=ast.Load())      # `import math` style: math.radians(x) is radians(x)
             if isinstance(f, ast.Attribute):
                 # self.m() / other.m() / x.__neg__()
                 if isinstance(f.value, ast.Name) and f.value.id == 'self' and not e.args:
